@@ -486,7 +486,8 @@ package solver
 //@     invariant st2:   status == Sat || status == Unsat
 //@     invariant st4:   status == Sat || res.Status == Sat
 //@     invariant sat:   status == Sat ==> total(s) && smodels(s, asgof(s.model))
-//@     invariant semOK: s.status != Unsat ==> forallasg(B, smodels(s, B) <==> (entry4(smodels(s, B)) && (res.Status != Sat || costOf(s, B) <= res.Weight - 1)))
+//@     invariant semOK1: s.status != Unsat ==> forallasg(B, smodels(s, B) ==> (entry4(smodels(s, B)) && (res.Status != Sat || costOf(s, B) <= res.Weight - 1)))
+//@     invariant semOK2: s.status != Unsat ==> forallasg(B, (entry4(smodels(s, B)) && (res.Status != Sat || costOf(s, B) <= res.Weight - 1)) ==> smodels(s, B))
 //@     invariant semUn: s.status == Unsat ==> forallasg(B, !(entry4(smodels(s, B)) && (res.Status != Sat || costOf(s, B) <= res.Weight - 1)))
 //@     invariant res:   (res.Status == Sat || res.Status == Indet) && (res.Status == Sat ==> res.Weight > 0)
 //@     invariant chan:  results != nil ==> !closed(results) && (res.Status == Sat ==> nsent(results) > old(nsent(results)) && lastsent(results).Status == Sat && lastsent(results).Weight == res.Weight && lastsent(results).Model == res.Model) && (res.Status != Sat ==> nsent(results) == old(nsent(results)))
@@ -544,7 +545,8 @@ package solver
 //@     invariant st2:   status == Sat || status == Unsat
 //@     invariant st3:   cost >= 0 && (status == Sat || cost > 0)
 //@     invariant sat:   status == Sat ==> total(s) && smodels(s, asgof(s.model))
-//@     invariant semOK: s.status != Unsat ==> forallasg(B, smodels(s, B) <==> (entry4(smodels(s, B)) && better(s, B, cost)))
+//@     invariant semOK1: s.status != Unsat ==> forallasg(B, smodels(s, B) ==> (entry4(smodels(s, B)) && better(s, B, cost)))
+//@     invariant semOK2: s.status != Unsat ==> forallasg(B, (entry4(smodels(s, B)) && better(s, B, cost)) ==> smodels(s, B))
 //@     invariant semUn: s.status == Unsat ==> forallasg(B, !(entry4(smodels(s, B)) && better(s, B, cost)))
 //@   loop 5
 //@     modifies nothing
